@@ -130,12 +130,15 @@ Verdict(kind, T, lim) ==
 \* the property speaks of "the executed amount": nothing is demanded of an estimate when the swap
 \* itself cannot be executed (it is only noted)
 Note(what) == PrintT(<<"NOTE", what, l + 1>>)
-Estimates(kind, ps0, leg, c, free, S) ==
+\* (T is the composition the verdict was judged against: for a whitelisted sender's exact-out swap that the code
+\* pre-computes with the nominal fee - listed deviation "wlpre" - it can fail where S succeeds; the swap then did
+\* not execute and could not have, so there is no executed amount to compare an estimate with)
+Estimates(kind, ps0, leg, c, free, S, T) ==
     /\ Chk("estimate changes the state", Ev.estDg = Ev.preDg)
     /\ Distinct(Ev.legs) =>
          LET N == IF kind = "swapIn" THEN EstIn(ps0, leg.route, leg.amt, c) ELSE EstOut(ps0, leg.route, leg.amt, c)
          IN  \A i \in 1..Len(Ev.est) : LET q == Ev.est[i] IN
-               IF ~S.ok THEN (q.ok => Note("estok-execfail"))
+               IF ~S.ok \/ ~T.ok THEN (q.ok => Note("estok-execfail"))
                ELSE IF q.ok /\ q.amt = S.amt THEN TRUE
                ELSE IF q.q = "outPrim" /\ ~q.ok THEN Dev(SigOutPrim)
                ELSE IF free /\ ~N.miss /\ q.ok = N.ok /\ (N.ok => q.amt = N.amt) THEN Dev(SigWlEst)
@@ -169,7 +172,7 @@ TRouted ==
                    /\ Chk("other ledgers", \A v \in DOMAIN bal : v # u => RowFn(Ev.st.bal[v]) = bal[v])
                    /\ Chk("fee collector", RowFn(Ev.st.coll) = Collect(coll, T.hops, 1))
               ELSE Chk("a failed swap changed the state", Ev.st.dg = prevdg)
-           /\ kind \in {"swapIn", "swapOut"} => Estimates(kind, ps0, Ev.legs[1], cfg, free, S)
+           /\ kind \in {"swapIn", "swapOut"} => Estimates(kind, ps0, Ev.legs[1], cfg, free, S, T)
     /\ Rebase(Ev.st)
     /\ last' = [kind |-> Ev.op, ok |-> Ev.ok, amt |-> Ev.amt, lim |-> Ev.lim]
 
